@@ -43,6 +43,7 @@ func checkC17(c *Ctx) {
 		c17Marshal(c, p, m)
 		c17Register(c, p, m)
 		c17NoParseMemo(c, p, m)
+		recordLevelWrittenOnce(c, p, m, "R17.4")
 		c17Variadic(c, p, m)
 		c17Tags(c, p, m)
 		regOptsIndependent(c, p)
